@@ -69,8 +69,8 @@ pub fn run(ctx: &Ctx, replay: Option<&J>) -> CheckResult {
     let maxw: u32 = ctx.tier.pick(30, 32);
     let rule = format!(
         "every df! field found in /repo/src/df/dfs.rs ({} fields) x bit patterns: ALL 2^w patterns for w<={} (enumerated, distinct by construction); \
-         for wider fields boundary windows of 2^{} patterns around 0, the sign boundary and the top, one-hot/one-cold patterns and 2^{} seeded random \
-         patterns (random ones not counted as distinct); the three hand-written bias codecs (1059/1065: 2^14, 1230: 2^16 patterns) enumerated completely \
+         for wider fields boundary windows of 2^{} patterns around 0, the sign boundary and the top, one-hot/one-cold patterns, all patterns of the form (a<<s)+d (every shift s, up to 2^10 high parts a, |d|<=16: limb/mantissa \
+         boundaries, prefix masks) and 2^{} seeded random patterns (these samples are not counted as distinct); the three hand-written bias codecs (1059/1065: 2^14, 1230: 2^16 patterns) enumerated completely \
          through one-entry frames and the public API. oracle: pattern -> own bit writer -> decode -> encode -> own bit reader returns the pattern (only the \
          14 pinned sign-magnitude fields may map 10..0 to 0), written width == declared width, value finite, optional fields have exactly one absent pattern \
          which is what 'absent' encodes to. every pattern is non-trivial",
@@ -214,6 +214,22 @@ pub fn run(ctx: &Ctx, replay: Option<&J>) -> CheckResult {
                     test(1u64 << b, &mut fails, &mut absent);
                     test(mask ^ (1u64 << b), &mut fails, &mut absent);
                     count += 2;
+                }
+            }
+            // "few significant high bits + small offset": (a << s) + d for every shift s, up to 2^10 values of the high part a
+            // and |d| <= 16 — covers every multiple of 2^32 / 2^24 / 2^16 ... (limb and mantissa boundaries), prefix masks and
+            // their neighbours; shifts are distributed over the 16 shards
+            for sft in (0..f.width).filter(|x| (*x as u64) % 16 == sh) {
+                let hi_bits = (f.width - sft).min(10);
+                for a in 0..(1u64 << hi_bits) {
+                    // the top hi_bits of the field
+                    let base = (a << (f.width - hi_bits)) >> 0;
+                    let base2 = a << sft;
+                    for d in -16i64..=16 {
+                        test((base as i64).wrapping_add(d << sft.min(4)) as u64 & mask, &mut fails, &mut absent);
+                        test((base2 as i64).wrapping_add(d) as u64 & mask, &mut fails, &mut absent);
+                        count += 2;
+                    }
                 }
             }
             for _ in 0..n {
